@@ -339,6 +339,21 @@ non-trivial = payload non-empty and one of {>=2 deflate blocks, >=2 segments, a 
                 Ok(r) => r,
                 Err(e) => return Outcome::fail(format!("C06:send-failed:{cname}"), format!("send() failed: {e:?}")),
             };
+            // the coding and length fields are reported as sent even when the body is decoded (C04's subject, checked here
+            // because only this check sends coded bodies)
+            {
+                let ce: Vec<Vec<u8>> = resp.headers().get_all("content-encoding").iter().map(|v| v.as_bytes().to_vec()).collect();
+                let want_ce: Vec<Vec<u8>> = headers.iter().filter(|(n, _)| n == "Content-Encoding").map(|(_, v)| v.clone()).collect();
+                if ce != want_ce {
+                    return Outcome::fail(format!("C06:content-encoding-not-reported:{cname}"), format!("Content-Encoding reported as {:?}, sent {:?}", ce.iter().map(|v| String::from_utf8_lossy(v).into_owned()).collect::<Vec<_>>(), want_ce.iter().map(|v| String::from_utf8_lossy(v).into_owned()).collect::<Vec<_>>()));
+                }
+                if matches!(framing, Framing::Length) {
+                    let cl = resp.headers().get("content-length").map(|v| v.as_bytes().to_vec());
+                    if cl != Some(body.len().to_string().into_bytes()) {
+                        return Outcome::fail(format!("C06:content-length-not-reported:{cname}"), format!("Content-Length reported as {:?}, sent {}", cl.map(|v| String::from_utf8_lossy(&v).into_owned()), body.len()));
+                    }
+                }
+            }
             let damaged = cut.is_some() || corrupt;
             if method == http::Method::HEAD {
                 match resp.bytes() {
